@@ -67,6 +67,8 @@ def name_object(name):
             # enum members as names (as in the repository's tests/test_enum.py): addressed by str(member), which is
             # 'Kind.A1' for Enum and Flag, '1' for IntEnum and the value for StrEnum - never by the member's name
             return list(ENUMS[name["enum"][0]])[name["enum"][1] % 3]
+        if "bytes" in name:
+            return name["bytes"].encode("latin-1")  # addressed by str(b'...'), i.e. the text "b'...'" - what the repr of the path shows
         if "int" in name:
             return name["int"]
         if "tup" in name:
